@@ -137,11 +137,59 @@ func (vc *FnVC) assume(f Term) {
 	if f.S == "true" {
 		return
 	}
+	// guarded conjunctions with quantified conjuncts are stored conjunct by conjunct ((=> g (and a b)) as (=> g a),
+	// (=> g b)): equivalent, and each universal fact is then visible as such to the goal-directed instantiation
+	if strings.Contains(f.S, "(forall ") && (strings.HasPrefix(f.S, "(and ") || strings.HasPrefix(f.S, "(=> ")) {
+		for _, p := range splitGuardedConj(f.S, 0) {
+			vc.items = append(vc.items, Item{Kind: ItemAssume, Text: p})
+		}
+		return
+	}
 	vc.items = append(vc.items, Item{Kind: ItemAssume, Text: f.S})
+}
+
+func splitGuardedConj(t string, depth int) []string {
+	if depth > 6 || !strings.Contains(t, "(forall ") {
+		return []string{t}
+	}
+	if strings.HasPrefix(t, "(and ") {
+		parts := splitSexp(t[1 : len(t)-1])
+		var out []string
+		for _, p := range parts[1:] {
+			out = append(out, splitGuardedConj(p, depth+1)...)
+		}
+		return out
+	}
+	if strings.HasPrefix(t, "(=> ") {
+		parts := splitSexp(t[1 : len(t)-1])
+		if len(parts) == 3 {
+			var out []string
+			for _, p := range splitGuardedConj(parts[2], depth+1) {
+				out = append(out, "(=> "+parts[1]+" "+p+")")
+			}
+			return out
+		}
+	}
+	return []string{t}
 }
 
 // oblige records an obligation: under reach, cond must hold. The obligation is assumed afterwards.
 func (vc *FnVC) oblige(name string, reach, cond Term, info string, pos token.Pos) {
+	// a conjunction with quantified conjuncts is proved conjunct by conjunct (each one assumed for the next): the
+	// solver then has one universal goal at a time to skolemise and instantiate for
+	if strings.HasPrefix(cond.S, "(and ") && (strings.Contains(cond.S, "(forall ") || strings.Contains(cond.S, "(exists ")) {
+		parts := splitSexp(cond.S[1 : len(cond.S)-1])
+		if len(parts) > 2 {
+			for k, p := range parts[1:] {
+				n := name
+				if k > 0 {
+					n = fmt.Sprintf("%s~%d", name, k+1)
+				}
+				vc.oblige(n, reach, Term{p, SBool}, info, pos)
+			}
+			return
+		}
+	}
 	f := tImp(reach, cond)
 	if f.S == "true" {
 		// trivially true: still counted as discharged obligation (by simplification)
